@@ -28,7 +28,7 @@ def unparse(node):
 
 class Module:
 
-    def __init__(self, name, path, src):
+    def __init__(self, name, path, src, records=None):
         self.name = name  # 'nodes', 'smtlib', 'bin/ddsmt'
         self.path = path
         self.src = src
@@ -43,8 +43,8 @@ class Module:
         if not name.startswith(('bin/', 'tests')) and not os.environ.get(
                 'VERIF_NO_INLINE'):
             from .inline import inline_new_helpers
-            self.tree, self.inline_notes = inline_new_helpers(self.tree,
-                                                              name)
+            self.tree, self.inline_notes = inline_new_helpers(
+                self.tree, name, records)
         # parent links
         for parent in ast.walk(self.tree):
             for child in ast.iter_child_nodes(parent):
@@ -176,11 +176,19 @@ class Program:
         pkgdir = os.path.join(self.root, 'ddsmt')
         if not os.path.isdir(pkgdir):
             raise AnalysisError(f'{pkgdir} is not a directory')
+        srcs = {}
         for fn in sorted(os.listdir(pkgdir)):
             if fn.endswith('.py'):
-                p = os.path.join(pkgdir, fn)
-                name = fn[:-3]
-                self.modules[name] = Module(name, p, open(p).read())
+                srcs[fn] = open(os.path.join(pkgdir, fn)).read()
+        records = None
+        if not os.environ.get('VERIF_NO_INLINE'):
+            from .inline import new_records
+            records = new_records(list(srcs.values()))
+        self.new_records = records or {}
+        for fn in sorted(srcs):
+            p = os.path.join(pkgdir, fn)
+            name = fn[:-3]
+            self.modules[name] = Module(name, p, srcs[fn], records)
         for fn in ('ddsmt', 'ddsmt-profile', 'smt2info'):
             p = os.path.join(self.root, 'bin', fn)
             if os.path.isfile(p):
